@@ -12,6 +12,7 @@ Rules
   D3  K == 0 is handled separately (x[:-0] is empty: nothing would be discarded); the K-store is guarded by K > 0
   D4  the spectrum is copied before any write and the mask is created from a copy of it
   D5  the *_with_truncation wrappers apply one and the same mask to all three factors on the connecting leg
+  D6  a conditional that tests isinstance(<limit>, dict) selects a value of that same limit (contradiction rule)
 Not decided: the Eckart-Young identity (numerical), tie handling inside argsort.
 """
 from __future__ import annotations
@@ -267,6 +268,53 @@ def check_guard(chk, f, o, cfg, st, K):
                 f"`[:-{Kt}]` is the empty slice for {Kt} == 0: nothing would be discarded when everything should be; {why}")
 
 
+def _isinstance_dict_subject(test):
+    """`isinstance(V, dict)` possibly inside an `and` -> name V, else None"""
+    for n in ast.walk(test):
+        if isinstance(n, ast.Call) and A.call_name(n) == "isinstance" and len(n.args) == 2 and isinstance(n.args[0], ast.Name) \
+                and A.text(n.args[1]) in ("dict", "(dict,)"):
+            return n.args[0].id
+    return None
+
+
+def check_knob_dispatch(chk, f, knobs):
+    """D6 (contradiction rule): a conditional expression that tests `isinstance(V, dict)` selects between the per-sector
+    entry and the scalar of the *same* user limit V.  Values (not tests) are followed through local definitions."""
+    o = Orders(f)
+
+    def value_knobs(node, seen):
+        out = set()
+        if isinstance(node, ast.IfExp):
+            return value_knobs(node.body, seen) | value_knobs(node.orelse, seen)
+        for n in ast.walk(node):
+            if isinstance(n, ast.IfExp) and n is not node:
+                continue
+            if isinstance(n, ast.Name) and isinstance(n.ctx, ast.Load):
+                if n.id in knobs:
+                    out.add(n.id)
+                elif n.id not in seen:
+                    seen.add(n.id)
+                    for d in o.defs(n.id):
+                        out |= value_knobs(d, seen)
+        return out
+    n = 0
+    for x in A.walk_local(f.node, include_self=False):
+        if not isinstance(x, ast.IfExp):
+            continue
+        V = _isinstance_dict_subject(x.test)
+        if V is None or V not in knobs:
+            continue
+        n += 1
+        used = value_knobs(x, set())
+        st = A.stmt_of(x, o.parent)
+        foreign = sorted(used - {V})
+        chk.verdict("D6", (f, st), st, False if foreign else True,
+                    f"the conditional tests whether `{V}` is a per-sector dict but selects a value of `{', '.join(foreign)}`: "
+                    f"when `{V}` is a dict the scalar `{', '.join(foreign)}` given by the user is silently replaced, when it is not, a dict "
+                    f"`{', '.join(foreign)}` is used as a number", {"tested": V, "value_knobs": sorted(used)})
+    return n
+
+
 def run(chk):
     prog = chk.prog
     chk.explanation = (
@@ -283,12 +331,15 @@ def run(chk):
     chk.rule("D3", "K == 0 never reaches the slice [:-K]", floor=3)
     chk.rule("D4", "spectrum copied before writes; mask built from a copy of the spectrum", floor=3)
     chk.rule("D5", "wrappers apply the same mask to U/S/V on the connecting leg", floor=2)
+    chk.rule("D6", "scalar-or-dict dispatch of a user limit tests the limit whose value it selects", floor=4)
     tm = prog.func(LINALG, "truncation_mask")
     tmm = prog.func(LINALG, "truncation_mask_multiplets")
     n1 = check_function(chk, tm)
     n2 = check_function(chk, tmm)
     chk.require(n1 >= 2, f"truncation_mask: expected block and global ordered stores, found {n1}")
     chk.require(n2 >= 1, f"truncation_mask_multiplets: expected one ordered store, found {n2}")
+    nd = check_knob_dispatch(chk, tm, {"tol", "tol_block", "D_block", "D_total"})
+    chk.require(nd >= 4, f"truncation_mask: {nd} isinstance(<limit>, dict) dispatch sites found (4 confirmed by hand)")
     # D4 copies
     for f in (tm, tmm):
         body = A.strip_docstring(f.node.body)
@@ -335,6 +386,7 @@ MUTANTS = [
     (">= tolerance", "yastn/tensor/linalg.py", "    above_tol = temp_data > tol * S.config.backend.max_abs(temp_data)", "    above_tol = temp_data >= tol * S.config.backend.max_abs(temp_data)", "D2"),
     ("drop K==0 case", "yastn/tensor/linalg.py", "    if D_total == 0:\n        Smask._data[:] = False\n        return Smask\n", "", "D3"),
     ("multiplets mark smallest", "yastn/tensor/linalg.py", "    Smask._data[inds[:D_trunc]] = True", "    Smask._data[inds[-D_trunc:]] = True", "D1"),
+    ("dispatch tests the wrong limit", "yastn/tensor/linalg.py", "    D_null = 0 if isinstance(D_block, dict) else D_block", "    D_null = 0 if isinstance(tol_block, dict) else D_block", "D6"),
     ("global stage on unmasked", "yastn/tensor/linalg.py", "    temp_data = S._data * Smask.data", "    temp_data = S._data", "D4"),
 ]
 BENIGN = [
